@@ -9,7 +9,7 @@ from typing import Iterable, NamedTuple, Optional
 from . import core
 
 RUST_DIR = os.path.join(core.VERIF, 'harness', 'rust')
-BIN = os.path.join(RUST_DIR, 'build', 'edb_lex')
+BIN = os.path.join(core.VERIF, 'harness', 'rust', 'build', 'edb_lex' if core.REPO == '/repo' else 'edb_lex-' + __import__('hashlib').md5(core.REPO.encode()).hexdigest()[:10])
 
 
 class Tok(NamedTuple):
